@@ -1244,6 +1244,18 @@ struct Exec {
                 "handler called " + std::to_string(out.err.handler_calls) +
                     " times for " + where,
                 d);
+        if (out.err.handler_uid >= 0 && out.err.handler_uid != ops.uid) {
+            // "the policy's error handler receives a resolution error";
+            // "error handlers belong to one policy"
+            d.set("handler_of", all_policies()[out.err.handler_uid]->name);
+            return violate(
+                opts.focus == "C14" ? "C14" : "C02", "error",
+                "foreign-handler",
+                "the error of a call of policy " + s.name +
+                    " was delivered to the handler installed for policy " +
+                    all_policies()[out.err.handler_uid]->name + ": " + where,
+                d);
+        }
         if (out.err.status != st)
             return violate(
                 "C02", "error", "wrong-status",
